@@ -294,3 +294,39 @@ Theorem C08_reach_closed_under_with_editor :
     Reach the_cfg o (after s (with_editor the_cfg s fails es)).
 Proof. exact (reach_with_editor the_cfg). Qed.
 Print Assumptions C08_reach_closed_under_with_editor.
+
+(* ================================================================== the size behind the 65535-byte guard is a size in BYTES
+   resolve_edits keeps a running size `cur_len` and InputBuffer::commit compares what it returns with REALLY_MAX_LENGTH;
+   the u16 byte offsets of ResultNode are valid only because that size is the TRUE byte length of the rewritten text.
+   For EVERY batch of ordered edits on character boundaries, whatever the replacement texts are (the model's e_w is the
+   UTF-8 encoding of the replacement: 1..4 bytes for ReplaceTgt::Char, any length for Str / Ref):
+     - an accepted batch reports exactly the byte length of the rewritten text, = old length + sum of the byte deltas;
+     - a rejected batch reports the byte length reached after the edits seen so far, and that is over the limit.
+   The fact obligation below ties the three match arms of resolve_edits, add_replace and commit to that unit. *)
+From Coq Require Import ZArith String.
+From Coq Require Import List.
+Local Close Scope string_scope.
+Theorem C08_reported_size_is_byte_length :
+  forall src smap edits t m l,
+    length smap = length src + 1 -> wf_text src = true -> edits_ok src edits = true ->
+    resolve the_cfg src smap edits 0 (Z.of_nat (length src)) = ROk t m l ->
+    l = Z.of_nat (length t) /\ l = (Z.of_nat (length src) + delta_bytes edits)%Z.
+Proof. exact (resolve_reports_byte_length the_cfg C08_facts_ok). Qed.
+Print Assumptions C08_reported_size_is_byte_length.
+
+Theorem C08_rejected_size_is_byte_length :
+  forall src smap edits start cl l,
+    resolve the_cfg src smap edits start cl = RTooLong l ->
+    exists es1 e es2, edits = es1 ++ e :: es2 /\ l = (cl + delta_bytes (es1 ++ [e]))%Z /\
+                      cmp_eval (c_resolve_cmp the_cfg) l (Z.of_N (c_resolve_limit the_cfg)) = true.
+Proof. exact (resolve_too_long_is_byte_length the_cfg). Qed.
+Print Assumptions C08_rejected_size_is_byte_length.
+
+(* edit.rs / mod.rs as read on this run: every kind of replacement text (Str, Ref, Char) goes through add_replace as a &str
+   of that text, add_replace answers with.len() - what.len() (byte lengths), and commit compares the RETURNED size (after
+   an early return the target holds only a prefix of the rewritten text) *)
+Fact C08_fact_sizes_in_bytes :
+  SudachiVerif.Generated.BufferFacts.resolve_arm_units = [("Str", "bytes"); ("Ref", "bytes"); ("Char", "bytes")]%string /\
+  SudachiVerif.Generated.BufferFacts.repl_delta_unit = "bytes"%string /\
+  SudachiVerif.Generated.BufferFacts.commit_size_source = "returned_by_resolve_edits"%string.
+Proof. vm_compute. repeat split; reflexivity. Qed.
